@@ -25,6 +25,27 @@ type View struct {
 	// Lag lists the group kinds whose cached reads may lag.
 	Lag map[schema.GroupKind]bool
 	pos map[schema.GroupKind]int
+	// Manual: the cache shows the state at its position for every read and only
+	// moves when CatchUp is called (the environment plays the informer); without
+	// it a read lags only when the scheduler picks the Stale outcome for it.
+	Manual bool
+}
+
+// CatchUp brings the view up to date (the informer has delivered everything).
+func (v *View) CatchUp(now int) {
+	for gk := range v.Lag {
+		v.pos[gk] = now
+	}
+}
+
+// Behind reports whether the view lags behind position now.
+func (v *View) Behind(now int) bool {
+	for gk := range v.Lag {
+		if v.pos[gk] < now {
+			return true
+		}
+	}
+	return false
 }
 
 // NewView returns a cache view that may lag for the given kinds.
@@ -145,7 +166,9 @@ func ToMap(o runtime.Object) (map[string]any, error) {
 	if u, ok := o.(*unstructured.Unstructured); ok {
 		return runtime.DeepCopyJSON(u.Object), nil
 	}
-	if u, ok := o.(interface{ GetUnstructured() *unstructured.Unstructured }); ok {
+	if u, ok := o.(interface {
+		GetUnstructured() *unstructured.Unstructured
+	}); ok {
 		return runtime.DeepCopyJSON(u.GetUnstructured().Object), nil
 	}
 	b, err := utiljson.Marshal(o)
@@ -165,7 +188,9 @@ func FromMap(m map[string]any, o runtime.Object) error {
 		u.Object = runtime.DeepCopyJSON(m)
 		return nil
 	}
-	if u, ok := o.(interface{ GetUnstructured() *unstructured.Unstructured }); ok {
+	if u, ok := o.(interface {
+		GetUnstructured() *unstructured.Unstructured
+	}); ok {
 		u.GetUnstructured().Object = runtime.DeepCopyJSON(m)
 		return nil
 	}
@@ -211,6 +236,12 @@ func (c *Client) readSeq(gk schema.GroupKind, o sim.Outcome, aux uint32) int {
 	}
 	cur := c.Store.Seq()
 	pos := c.View.pos[gk]
+	if c.View.Manual {
+		if pos < cur {
+			return pos
+		}
+		return -1
+	}
 	if o == sim.Stale && pos < cur {
 		pos += int(aux % uint32(cur-pos))
 		c.View.pos[gk] = pos
